@@ -132,6 +132,41 @@ def _finish(tname, fname, root, ctx, kwargs, tok):
     return v
 
 
+class _Awaitable:
+    """Custom awaitable (neither coroutine, Future nor Task)."""
+
+    def __init__(self, coro):
+        self._coro = coro
+
+    def __await__(self):
+        return self._coro.__await__()
+
+
+def _as_awaitable(ctx, coro):
+    kind = ctx.kernel.stream.below(4, "aw-kind")
+    if kind == 0:
+        return coro
+    if kind == 1:
+        ctx.count("awaitable_task")
+        return ctx.loop.create_task(coro)
+    if kind == 2:
+        ctx.count("awaitable_custom")
+        return _Awaitable(coro)
+    ctx.count("awaitable_loop_future")
+    fut = ctx.loop.create_future()
+
+    def done(t):
+        if fut.done():
+            return
+        if t.exception() is not None:
+            fut.set_exception(t.exception())
+        else:
+            fut.set_result(t.result())
+
+    ctx.loop.create_task(coro).add_done_callback(done)
+    return fut
+
+
 def make_default_attr(tname, fname, oid):
     """Callable stored on Obj values; reached through py-gql's
     default_resolver (``field_value(context, info, **args)``).  The parent is
@@ -181,12 +216,15 @@ def make_resolvers(spec, tname, fname):
             if beh == "nested":
                 async def outer():
                     await ctx.loop.sleep(ctx.kernel.draw_latency("aw-lat"))
-                    return inner()
+                    # the inner awaitable is handed back un-awaited, in one
+                    # of the shapes user code produces (DataLoader-style
+                    # futures, ensure_future, objects with __await__)
+                    return _as_awaitable(ctx, inner())
 
                 ctx.count("nested_awaitable")
-                return outer()
+                return _as_awaitable(ctx, outer())
             ctx.count("awaitable_value")
-            return inner()
+            return _as_awaitable(ctx, inner())
 
         def pf(root, ctx, info, **kwargs):
             tok = _start(tname, fname, root, ctx, info)
